@@ -49,8 +49,70 @@ def relerr(got, want):
     return np.max(np.abs(got - want) / np.maximum(LD(1.0), np.abs(want))) if got.size else 0.0
 
 
+def run_focal(row, tol=1e-9):
+    """focal_loss on probabilities and softmax_focal_loss on scores; C = 3 classes, every class the target in turn."""
+    from mygrad.nnet.losses import focal_loss, softmax_focal_loss
+
+    alpha = float(ev(row["alpha"], None, None, None))
+    gamma = float(ev(row["gamma"], None, None, None))
+    ps = grid(row["dom"])
+    n = ps.size
+    tgt = np.arange(n) % 3
+    rng = np.random.RandomState(7)
+    probs = rng.uniform(0.05, 0.95, size=(n, 3))
+    probs[np.arange(n), tgt] = ps
+    g = np.arange(n) % 5 - 2.0
+    x = mg.tensor(probs.copy())
+    out = focal_loss(x, tgt, alpha=alpha, gamma=gamma)
+    P = ps.astype(LD)
+    err = relerr(out.data, ev(row["val"], P, None, None))
+    if out.shape != (n,) or not np.isfinite(float(err)) or err > tol:
+        return ("focal_loss value", "per-datum -a (1-p)^g ln p", f"rel err {float(err):.2e}, shape {out.shape}")
+    out.backward(g)
+    want = np.zeros((n, 3), dtype=LD)
+    want[np.arange(n), tgt] = ev(row["d"], P, None, None) * g
+    err = relerr(x.grad, want)
+    if x.grad.shape != (n, 3) or not np.isfinite(float(err)) or err > tol:
+        i = int(np.argmax(np.abs(np.asarray(x.grad, dtype=LD) - want).max(axis=1)))
+        return ("focal_loss vjp", f"p={ps[i]!r}: {np.asarray(want[i], dtype=float).tolist()}", f"{x.grad[i].tolist()} (rel err {float(err):.2e})")
+    # p = 1: the documented limit
+    x1 = mg.tensor(np.array([[1.0, 0.25], [0.5, 1.0]]))
+    focal_loss(x1, np.array([0, 1]), alpha=alpha, gamma=gamma).backward()
+    lim = float(ev(row["at_one"], None, None, None))
+    if not np.array_equal(x1.grad, np.array([[lim, 0.0], [0.0, lim]])):
+        return ("focal_loss vjp at p = 1", lim, x1.grad.tolist())
+    # through softmax: scores with prescribed class probabilities (s = ln p up to a per-row constant)
+    rest = rng.uniform(0.1, 0.9, size=n)
+    pr = np.empty((n, 3))
+    pr[np.arange(n), tgt] = ps
+    pr[np.arange(n), (tgt + 1) % 3] = (1 - ps) * rest
+    pr[np.arange(n), (tgt + 2) % 3] = (1 - ps) * (1 - rest)
+    s = mg.tensor(np.log(pr) + rng.uniform(-1, 1, size=(n, 1)))
+    out = softmax_focal_loss(s, tgt, alpha=alpha, gamma=gamma)
+    sm = np.exp(s.data.astype(LD))
+    sm = sm / sm.sum(axis=1, keepdims=True)
+    P = sm[np.arange(n), tgt]
+    err = relerr(out.data, ev(row["val"], P, None, None))
+    if out.shape != (n,) or not np.isfinite(float(err)) or err > tol:
+        return ("softmax_focal_loss value", "per-datum -a (1-p)^g ln p", f"rel err {float(err):.2e}, shape {out.shape}")
+    out.backward(g)
+    want = np.empty((n, 3), dtype=LD)
+    for k in range(3):
+        col = (tgt + k) % 3
+        want[np.arange(n), col] = (ev(row["dtarget"], P, None, None) if k == 0 else ev(row["dother"], P, sm[np.arange(n), col], None)) * g
+    err = relerr(s.grad, want)
+    if s.grad.shape != (n, 3) or not np.isfinite(float(err)) or err > 1e-8:
+        i = int(np.argmax(np.abs(np.asarray(s.grad, dtype=LD) - want).max(axis=1)))
+        return ("softmax_focal_loss vjp", f"p={float(P[i])!r}: {np.asarray(want[i], dtype=float).tolist()}", f"{s.grad[i].tolist()} (rel err {float(err):.2e})")
+    return None
+
+
 def run_row(row, tol=1e-9):
     kind, name = row["kind"], row["f"]
+    if kind == "focal":
+        with warnings.catch_warnings():
+            warnings.simplefilter("ignore")
+            return run_focal(row, tol)
     fn = getattr(mg, name, None) or getattr(mg.nnet.activations, name, None)
     if fn is None:
         return ("missing", f"mygrad.{name}", "not found")
